@@ -202,3 +202,209 @@ func H01_smoke() {
 	e.s.Show()
 	e.compare("after Show")
 }
+
+// h01Style: one of four symbolically parameterised styles.
+func (e *h01Env) menuStyle(tag string) Style {
+	st := StyleDefault
+	switch vsymChoice(tag+".style", vsymParam("styles", 4)) {
+	case 0:
+	case 1: // palette colours, both symbolic below the terminal's colour count
+		n := e.t.nColors()
+		if n == 0 {
+			vsymCutPath("colourless terminal")
+		}
+		if n > 256 {
+			n = 256
+		}
+		fg, bg := int(vsymByte(tag+".fg")), int(vsymByte(tag+".bg"))
+		vsymAssume(vsymAnd(fg < n, bg < n))
+		st = st.Foreground(PaletteColor(fg)).Background(PaletteColor(bg))
+	case 2: // RGB foreground, curly coloured underline, hyperlink
+		rgb := int32(vsymUint32(tag+".rgb") & 0xffffff)
+		st = st.Foreground(NewHexColor(rgb)).Underline(UnderlineStyleCurly, PaletteColor(int(vsymByte(tag+".ulc")))).Url("http://x/" + string(rune('a'+vsymChoice(tag+".u", 2)))).UrlId("i")
+		if !e.t.truecolor {
+			st = st.Foreground(ColorDefault)
+		}
+	case 3: // attributes + ColorReset
+		st = st.Reverse(true).Bold(true).Foreground(ColorReset).Background(ColorReset)
+		if vsymBool(tag + ".italic") {
+			st = st.Italic(true)
+		}
+		if vsymBool(tag + ".dim") {
+			st = st.Dim(true).Blink(true).StrikeThrough(true)
+		}
+	}
+	return st
+}
+
+// h01Rune: a rune of a chosen class.  Printable ASCII stays symbolic (one-byte
+// encoding keeps the solver terms small); the other classes use concrete
+// representatives, because decode(encode(r)) of a symbolic multi-byte rune makes
+// every width lookup in the reference terminal a hard bit-vector query.  (C09's
+// rune harness covers every int32 value for the sanitising step.)
+func h01Rune(tag string, classes int) rune {
+	switch vsymChoice(tag+".class", classes) {
+	case 0:
+		r := vsymRune(tag)
+		vsymAssume(vsymAnd(r >= 0x21, r <= 0x7e))
+		return r
+	case 1:
+		return []rune{0x4e16, 0xff21}[vsymChoice(tag+".wide", 2)] // 世, fullwidth A
+	case 2:
+		return []rune{0x07, 0x1b, 0x00, 0x7f}[vsymChoice(tag+".ctl", 4)]
+	case 3:
+		return []rune{0x9b, 0x200b, 0x0301}[vsymChoice(tag+".c1", 3)] // C1 CSI, zero-width space, bare combining mark
+	}
+	return 'x'
+}
+
+// mutation: one symbolic application call between two paints
+func (e *h01Env) mutate(tag string) {
+	switch vsymChoice(tag+".op", vsymParam("ops", 7)) {
+	case 0: // SetContent anywhere (also out of range)
+		x, y := vsymInt(tag+".x"), vsymInt(tag+".y")
+		vsymAssume(vsymAnd(vsymAnd(x >= -1, x <= e.w), vsymAnd(y >= -1, y <= e.h)))
+		r := h01Rune(tag+".r", vsymParam("classes", 4))
+		var comb []rune
+		if vsymChoice(tag+".comb", 2) == 1 {
+			comb = []rune{[]rune{0x0301, 0x0308}[vsymChoice(tag+".c", 2)]}
+		}
+		e.set(x, y, r, comb, e.menuStyle(tag))
+	case 1: // re-store identical content in cell 0,0 (C13: must not repaint)
+		c := &e.sp.cells[0]
+		e.set(0, 0, c.main, c.comb, c.style)
+	case 2: // Fill
+		r := h01Rune(tag+".r", 1)
+		st := e.menuStyle(tag)
+		e.s.Fill(r, st)
+		e.sp.Fill(r, st)
+	case 3: // SetStyle
+		e.style = e.menuStyle(tag)
+		e.s.SetStyle(e.style)
+	case 4: // ShowCursor
+		e.curX, e.curY = vsymInt(tag+".cx"), vsymInt(tag+".cy")
+		vsymAssume(vsymAnd(vsymAnd(e.curX >= -1, e.curX <= e.w), vsymAnd(e.curY >= -1, e.curY <= e.h)))
+		e.s.ShowCursor(e.curX, e.curY)
+	case 5: // LockRegion on/off around cell (0,0) then change it
+		e.s.LockRegion(0, 0, 1, 1, true)
+		e.sp.Lock(0, 0)
+		e.set(0, 0, 'L', nil, StyleDefault)
+	case 6: // nothing
+	}
+}
+
+// H01_hist: paint, Show, mutation(s), final operation; then display == logical screen (C01),
+// unchanged cells keep their write stamp (C13), stream well-formed (C09).
+func H01_hist() {
+	terms := h01Terms()
+	term := terms[vsymChoice("term", vsymParam("terms", 4))]
+	truec := vsymChoice("truecolor", vsymParam("tcvar", 2)) == 1
+	var w, h int
+	switch vsymChoice("grid", vsymParam("grids", 2)) {
+	case 0:
+		w, h = 3, 1
+	case 1:
+		w, h = 2, 2
+	case 2:
+		w, h = 4, 1
+	case 3:
+		w, h = 3, 2
+	}
+	e := h01New(term, w, h, truec)
+	// paint every cell: letters, one cell optionally wide
+	wide := vsymChoice("wide", w*h+1) - 1
+	for y := 0; y < h; y++ {
+		for x := 0; x < w; x++ {
+			r := rune('a' + y*w + x)
+			if y*w+x == wide {
+				r = 0x4e16 // 世
+			}
+			e.set(x, y, r, nil, StyleDefault)
+		}
+	}
+	e.s.Show()
+	e.compare("after the first Show")
+	nm := vsymParam("mutations", 1)
+	for i := 0; i < nm; i++ {
+		// snapshot of what is on screen, for the C13 judgement
+		before := make([]h08Cell, len(e.sp.cells))
+		copy(before, e.sp.cells)
+		stamps := e.stamps()
+		styleBefore := e.style
+		e.mutate("m" + string(rune('0'+i)))
+		final := vsymChoice("final"+string(rune('0'+i)), vsymParam("finals", 4))
+		blkBefore := e.tty.vt.blk
+		switch final {
+		case 0:
+			e.s.Show()
+		case 1:
+			e.s.Sync()
+		case 2: // the terminal's contents became arbitrary; Sync repairs them
+			e.tty.vt.corrupt('#')
+			e.s.Sync()
+		case 3: // window resize notification handled by the main loop
+			e.tty.vt.corrupt('%')
+			if e.tty.cb != nil {
+				e.tty.cb()
+			}
+			vsymRunBlocked()
+		}
+		e.compare("after mutation and repaint")
+		if final == 0 {
+			e.c13(before, stamps, styleBefore, blkBefore)
+		}
+		for j := range e.sp.cells {
+			if e.sp.cells[j].lock {
+				// unlock: the first Show afterwards repaints the cell
+				e.s.LockRegion(0, 0, 1, 1, false)
+				e.sp.Unlock(0, 0)
+				e.s.Show()
+				e.compare("after unlock and Show")
+				break
+			}
+		}
+	}
+}
+
+// c13: a Show writes cell content only to cells whose appearance changed (plus
+// columns covered/uncovered by a changed wide rune and the corner neighbour).
+func (e *h01Env) c13(before []h08Cell, stamps []int, styleBefore Style, blkBefore int) {
+	vt := e.tty.vt
+	ti := e.t.ti
+	corner := ti.AutoMargin && ti.DisableAutoMargin == "" && ti.InsertChar != ""
+	for y := 0; y < e.h; y++ {
+		for x := 0; x < e.w; x++ {
+			i := y*e.w + x
+			b, a := &before[i], &e.sp.cells[i]
+			same := vsymAnd(b.main == a.main, vsymAnd(h08RunesEq(b.comb, a.comb), b.style == a.style))
+			// cells displayed in the default style change when SetStyle changed
+			if a.style == StyleDefault && styleBefore != e.style {
+				same = false
+			}
+			// neighbours of a changed or previously/now wide rune may be repainted
+			near := false
+			for _, dx := range []int{-1, 1} {
+				if x+dx >= 0 && x+dx < e.w {
+					nb, na := &before[i+dx], &e.sp.cells[i+dx]
+					if nb.ew == 2 || na.ew == 2 {
+						near = true
+					}
+				}
+			}
+			if b.ew == 2 || a.ew == 2 {
+				near = true
+			}
+			if corner && y == e.h-1 && x >= e.w-2 {
+				near = true
+			}
+			written := vt.cells[i].stamp > blkBefore
+			if a.lock {
+				vsymAssert(!written, "C13: a locked cell is never written")
+				continue
+			}
+			if !near {
+				vsymAssert(vsymImplies(same, !written), "C13: a cell whose rune, combining runes and style did not change is not rewritten by Show")
+			}
+		}
+	}
+}
